@@ -1,8 +1,10 @@
 import SafeC.Proofs.StpAll
 import SafeC.Proofs.FldSteps
-import SafeC.Props.C06
+import SafeC.Proofs.MemccpyAbsent
+import SafeC.Props.C06ExtMem
 /-!
 # C06 (extension 2) — `stpcpy_s` / `stpncpy_s`: success means the exact, complete result and the right pointer
+(further down: the field copies `strcpyfld_s` / `strcpyfldin_s` / `strcpyfldout_s`, and `memccpy_s` without the stop character)
 
 Setting of `Props/C07Ext.lean`: every cell mapped and readable with ARBITRARY contents, the `dmax` cells of dest
 writable, usable sizes (`dest ≠ 0`, `0 < dmax ≤ RSIZE_MAX_STR`, a known object size not smaller than `dmax`, a known
@@ -23,7 +25,7 @@ namespace SafeC.Props.C06
 open SafeC Gen
 
 /-- the distance between two different pointers -/
-theorem gap_of_ne (dest src : Nat) (hne : dest ≠ src) :
+private theorem gap_of_ne (dest src : Nat) (hne : dest ≠ src) :
     ∃ g, 0 < g ∧ ((dest < src ∧ src = dest + g) ∨ (src < dest ∧ dest = src + g)) := by
   by_cases h : dest < src
   · exact ⟨src - dest, by omega, Or.inl ⟨h, by omega⟩⟩
@@ -40,7 +42,7 @@ def StpC06 (cfg : Cfg) (dest dmax src m : Nat) (st st' : St) (r : Nat × Nat) : 
     st'.events = st.events ++ [.handler .str r.2] ∧
     (∀ a, ¬ (dest ≤ a ∧ a < dest + dmax) → st'.data a = st.data a))
 
-theorem stpC06_of_all {cfg : Cfg} {dest dmax src m g : Nat} {st st' : St} {r : Nat × Nat}
+private theorem stpC06_of_all {cfg : Cfg} {dest dmax src m g : Nat} {st st' : St} {r : Nat × Nat}
     (hg : 0 < g ∧ ((dest < src ∧ src = dest + g) ∨ (src < dest ∧ dest = src + g)))
     (h : StpAll cfg dest dmax src m g st st' r) : StpC06 cfg dest dmax src m st st' r := by
   have hgm : (dest + m < src ∨ src + m < dest) ↔ m < g := by omega
@@ -134,7 +136,7 @@ def StpSame (cfg : Cfg) (dest dmax n : Nat) (st st' : St) (r : Nat × Nat) : Pro
   (r.2 ≠ EOK → r = (0, ESNOSPC) ∧ st'.data dest = 0 ∧ st'.events = st.events ++ [.handler .str ESNOSPC] ∧
     (∀ a, ¬ (dest ≤ a ∧ a < dest + dmax) → st'.data a = st.data a))
 
-theorem stpSame_of {cfg : Cfg} {isN : Bool} {dest dmax n : Nat} {st : St} (hpos : 0 < dmax) (hrw : RW st dest dmax)
+private theorem stpSame_of {cfg : Cfg} {isN : Bool} {dest dmax n : Nat} {st : St} (hpos : 0 < dmax) (hrw : RW st dest dmax)
     (hnz : ∀ j, j < n → j < dmax → st.data (dest + j) ≠ 0) (hz : n < dmax → st.data (dest + n) = 0) :
     ∃ r st', exec (stpSameWalk cfg isN dest dmax dmax dest) st = .ok (r, st') ∧ StpSame cfg dest dmax n st st' r := by
   obtain ⟨r, st', he, hok, hfail⟩ := stpSameWalk_exact cfg isN dest dmax hpos n dmax dest st hrw ⟨Nat.le_refl _, rfl⟩ hnz hz
@@ -217,7 +219,7 @@ def FldExact (dest dmax src n : Nat) (st st' : St) : Prop :=
   st'.events = st.events ∧ st'.strays = st.strays ∧
   (∀ a, ¬ (dest ≤ a ∧ a < dest + dmax) → st'.data a = st.data a)
 
-theorem fldExact_of {dest dmax src n : Nat} {st st' : St} (h : FldOk dest dmax src n st st') (hn : n ≤ dmax) :
+private theorem fldExact_of {dest dmax src n : Nat} {st st' : St} (h : FldOk dest dmax src n st st') (hn : n ≤ dmax) :
     FldExact dest dmax src n st st' :=
   ⟨cells_eq st st' dest src n h.copied, h.filled, h.1.events, h.1.strays, h.frame hn⟩
 
@@ -228,7 +230,7 @@ def FldFailed (cfg : Cfg) (dest dmax slen : Nat) (st st' : St) (code : Nat) : Pr
   (∀ a, ¬ (dest ≤ a ∧ a < dest + dmax) → st'.data a = st.data a) ∧
   (code = ESOVRLP → cfg.slack = true → ∀ i, i < dmax → st'.data (dest + i) = 0)
 
-theorem fldFailed_of {kind : FldKind} {cfg : Cfg} {dest dmax src slen code : Nat} {st st' : St}
+private theorem fldFailed_of {kind : FldKind} {cfg : Cfg} {dest dmax src slen code : Nat} {st st' : St}
     (hp : FldPost kind cfg dest dmax src slen st st' code) (hs : src ≠ 0) (hne : code ≠ EOK) :
     FldFailed cfg dest dmax slen st st' code := by
   refine ⟨hp.fail_first hne, ?_, hp.safe.fail_events hne, hp.safe.strays, hp.safe.frame,
@@ -333,5 +335,62 @@ example : (∀ a, fldoutSt.mapped a = true ∧ fldoutSt.rd a = true) ∧ RW fldo
   · intro j hj
     have : j = 0 := by omega
     subst this; decide
+
+/-! ## `memccpy_s` when the stop character does not occur among the `n` source bytes
+
+Valid arguments, disjoint operands (setting of `Props/C06ExtMem.lean`: only the declared extents mapped / readable).
+Standard `memccpy` copies the `n` bytes and returns NULL.  `memccpy_s` copies them, stores a NUL behind them and returns
+EOK — provided there is room for that NUL (`n < dmax`); nothing else is changed (this exit does no null-slack clearing).
+For `n = dmax` it fails with ESNOSPC through the STRING handler although the `n` bytes fit (`memccpy-n-eq-dmax`, listed
+under C05 / C04): `_partial` + `_witness`. -/
+
+/- FULL statement (FALSE of the code for `n = dmax`, see the witness): the same without `hlt`. -/
+/-- **memccpy_s, stop character absent, `n < dmax`**: EOK, `dest[0..n) = src[0..n)`, `dest[n] = 0`, no handler call,
+no stray access, nothing else changed -/
+theorem memccpy_s_C06_absent_partial (cfg : Cfg) (dest dmax src c n : Nat) (st : St)
+    (hd : dest ≠ 0) (hs : src ≠ 0) (hpos : 0 < n) (hlt : n < dmax) (hmax : dmax ≤ RSIZE_MAX_MEM)
+    (hw : RW st dest dmax) (hr : RD st src n) (ha1 : src + n < Mem.U64) (ha2 : dest + dmax < Mem.U64)
+    (hno : ¬ ((src ≤ dest ∧ dest < src + n) ∨ (dest < src ∧ src < dest + dmax)))
+    (hns : ∀ i, i < n → ((st.data (src+i) : Nat) : Int) ≠ Mem.asInt c) :
+    ∃ st', exec (memccpy_s cfg dest dmax src c n none none) st = .ok (EOK, st') ∧
+      cells st' dest n = cells st src n ∧ st'.data (dest + n) = 0 ∧
+      st'.events = st.events ∧ st'.strays = st.strays ∧
+      (∀ a, ¬ (dest ≤ a ∧ a ≤ dest + n) → st'.data a = st.data a) := by
+  obtain ⟨code, st', he, hok, _⟩ :=
+    memccpy_s_absent cfg dest dmax src c n st hd hs hpos (by omega) hmax hw hr ha1 ha2 hno hns
+  obtain ⟨hc, hm, c1, c2, c3⟩ := hok hlt
+  subst hc
+  exact ⟨st', he, cells_eq st st' dest src n c1, c2, hm.events, hm.strays, c3⟩
+
+/-- the excluded point `n = dmax`, for every such call: ESNOSPC, one STRING-handler event, dest cleared, nothing outside
+dest changed — the `n` bytes would have fitted -/
+theorem memccpy_s_C06_absent_full_dmax (cfg : Cfg) (dest dmax src c : Nat) (st : St)
+    (hd : dest ≠ 0) (hs : src ≠ 0) (hpos : 0 < dmax) (hmax : dmax ≤ RSIZE_MAX_MEM)
+    (hw : RW st dest dmax) (hr : RD st src dmax) (ha1 : src + dmax < Mem.U64) (ha2 : dest + dmax < Mem.U64)
+    (hno : ¬ ((src ≤ dest ∧ dest < src + dmax) ∨ (dest < src ∧ src < dest + dmax)))
+    (hns : ∀ i, i < dmax → ((st.data (src+i) : Nat) : Int) ≠ Mem.asInt c) :
+    ∃ st', exec (memccpy_s cfg dest dmax src c dmax none none) st = .ok (ESNOSPC, st') ∧
+      st'.events = st.events ++ [.handler .str ESNOSPC] ∧ st'.strays = st.strays ∧ st'.data dest = 0 ∧
+      (cfg.slack = true → ∀ i, i < dmax → st'.data (dest + i) = 0) ∧
+      (∀ a, ¬ (dest ≤ a ∧ a < dest + dmax) → st'.data a = st.data a) := by
+  obtain ⟨code, st', he, _, hfull⟩ :=
+    memccpy_s_absent cfg dest dmax src c dmax st hd hs hpos (Nat.le_refl _) hmax hw hr ha1 ha2 hno hns
+  obtain ⟨hc, h1, h2, h3, h4, h5⟩ := hfull rfl
+  subst hc
+  exact ⟨st', he, h2, h1, h3, h4, h5⟩
+
+/-- src = 200 holds `'a'`, dest = 100 (1 cell holding 7) -/
+def ccaSt : St :=
+  { data := fun a => if a = 200 then 97 else 7
+    mapped := fun _ => true, rd := fun _ => true
+    wr := fun a => decide (a = 100) }
+
+/-- the excluded point: `memccpy_s(d, 1, "a", 0, 1)` — one byte into a one-byte dest, stop character 0 absent — is
+rejected with ESNOSPC and `d[0] = 0` (**listed**: `memccpy-n-eq-dmax`) -/
+theorem memccpy_s_C06_absent_witness :
+    observe (exec (memccpy_s { slack := true } 100 1 200 0 1 none none) ccaSt) 100 = some (ESNOSPC, 0) := by decide
+
+example : RW ccaSt 100 1 ∧ RD ccaSt 200 1 ∧ ((ccaSt.data (200 + 0) : Nat) : Int) ≠ Mem.asInt 0 :=
+  ⟨fun i hi => ⟨rfl, by simp [ccaSt]; omega, rfl⟩, fun _ _ => ⟨rfl, rfl⟩, by decide⟩
 
 end SafeC.Props.C06
